@@ -7,10 +7,10 @@ from checks import apifam
 
 
 def run_os(prop, tier, seed, runs, builds, own_guards, crash_decisive=True, group=4, level="model_checking", assumptions=(),
-           extra_cov=None, mc=("MiOsMC", "MiOsMC.cfg"), driver_timeout=300):
+           extra_cov=None, mc=("MiOsMC", "MiOsMC.cfg"), driver_timeout=300, V=None, finish=True, outname=None):
     """runs: list of dicts {args: [...], env: {...} or None, tag: str, build: optional}"""
-    V = vlib.Verdict(prop, tier, seed)
-    od = vlib.outdir(prop)
+    V = V or vlib.Verdict(prop, tier, seed)
+    od = vlib.outdir(outname or prop)
     for f in os.listdir(od):
         try:
             os.remove(os.path.join(od, f))
@@ -103,6 +103,8 @@ def run_os(prop, tier, seed, runs, builds, own_guards, crash_decisive=True, grou
            "exhaustive": False}
     if extra_cov:
         cov.update(extra_cov)
+    if not finish:
+        return V, cov
     return V.finish(level, cov, assumptions=list(assumptions) + [
         "TLC 1.8.0 and CommunityModules trusted; the OS shim reports each mmap/munmap/mprotect/madvise call faithfully (it performs the real call unless the fault plan refuses it)",
         "MADV_HUGEPAGE is answered without reaching the kernel; the clock is virtual",
